@@ -240,7 +240,10 @@ def _alarm(signum, frame):
     raise _Timeout()
 
 
-def _run(src, sess, how):
+CPU_LIMIT_S = 6.0
+
+
+def _run(src, sess, how, slow_ok=False):
     """Execute src under CPython ('ref') or the real Execer ('xonsh') from a fresh world.
     -> dict(exc, syntax, line, log, ns, spawns, ns0)"""
     w = World()
@@ -253,8 +256,9 @@ def _run(src, sess, how):
     exc = None
     syntax = False
     line = None
-    signal.signal(signal.SIGALRM, _alarm)
-    signal.setitimer(signal.ITIMER_REAL, 30.0)
+    # CPU-time alarm (load independent): a program of this size needs milliseconds
+    signal.signal(signal.SIGVTALRM, _alarm)
+    signal.setitimer(signal.ITIMER_VIRTUAL, CPU_LIMIT_S)
     try:
         if how == "ref":
             code = compile(src, FILENAME, "exec")
@@ -264,7 +268,9 @@ def _run(src, sess, how):
 
             XSH.execer.exec(src, mode="exec", glbs=g, locs=loc, filename=FILENAME)
     except _Timeout:
-        raise common.ToolError(f"no result within 30 s ({how}) for {src!r}") from None
+        if slow_ok:
+            return None
+        raise common.ToolError(f"no result within {CPU_LIMIT_S} CPU-seconds ({how}) for {src!r}") from None
     except BaseException as e:  # noqa: BLE001 - the exception type is the observation
         exc = type(e).__name__
         syntax = isinstance(e, SyntaxError)
@@ -275,7 +281,7 @@ def _run(src, sess, how):
             tb = tb.tb_next
         del tb
     finally:
-        signal.setitimer(signal.ITIMER_REAL, 0)
+        signal.setitimer(signal.ITIMER_VIRTUAL, 0)
         for k, v in saved.items():
             if v is None:
                 sys.modules.pop(k, None)
@@ -537,7 +543,11 @@ def atomic_src(p_src, tail, sep, pos):
 
 def eval_atomic_src(src, sess):
     """clause (d): SyntaxError => nothing ran."""
-    got = _run(src, sess, "xonsh")
+    got = _run(src, sess, "xonsh", slow_ok=True)
+    if got is None:
+        # the subprocess-retry loop of Execer._parse_ctx_free needs seconds of CPU on this input; whether
+        # and when it ends is C03's clause ("detection terminates"), nothing ran so far either way
+        return {"status": "drop:slow-parse"}
     if not got["syntax"]:
         return {"status": "accepted", "exc": got["exc"]}
     clean = not got["log"] and not got["spawns"] and got["ns"] == got["ns0"]
@@ -711,6 +721,9 @@ def _init_worker():
     import xonsh.procs.specs as specs
 
     specs.run_subproc = _recorder
+    import warnings
+
+    warnings.simplefilter("ignore", SyntaxWarning)  # `n (l)` with a tuple-valued n: CPython's compile-time hint, not an error
     _CACHE.clear()
     _USE_ALONE.clear()
 
@@ -916,8 +929,8 @@ def run(ctx):
             if nt:
                 nontrivial[kind] += 1
         if kind == "at":
-            d = syntax_tails if st in ("ok", "viol") else accepted_tails
-            if st != "na":
+            d = syntax_tails if st in ("ok", "viol") else accepted_tails if st == "accepted" else None
+            if d is not None:
                 d[it[2]] = d.get(it[2], 0) + 1
         if v is not None:
             viols.append(v)
